@@ -34,7 +34,10 @@ def load_cases(prop):
 
 def _lib_for(modname):
     mod = importlib.import_module(modname)
-    return getattr(mod, "LIB", {"summaries": {}, "loops": {}})
+    lib = getattr(mod, "LIB", None)
+    if lib is None:
+        from contracts.lib import LIB as lib
+    return lib
 
 
 def _worker(job):
